@@ -2671,11 +2671,10 @@ fn eval_built_in_call(
                 arg_values,
             )?;
 
-            let mut saved_values = vec![];
+            let mut saved_values = vec![receiver_value.clone()];
             for value in arg_values.iter().rev() {
                 saved_values.push(value.clone());
             }
-            saved_values.push(receiver_value.clone());
 
             let s = check_string(&arg_values[0], &arg_positions[0], saved_values, env)?;
             match &session.stdout_stderr_mode {
@@ -2720,11 +2719,10 @@ fn eval_built_in_call(
                 arg_values,
             )?;
 
-            let mut saved_values = vec![];
+            let mut saved_values = vec![receiver_value.clone()];
             for value in arg_values.iter().rev() {
                 saved_values.push(value.clone());
             }
-            saved_values.push(receiver_value.clone());
 
             let s = check_string(&arg_values[0], &arg_positions[0], saved_values, env)?;
             match &session.stdout_stderr_mode {
@@ -2771,11 +2769,10 @@ fn eval_built_in_call(
                 arg_values,
             )?;
 
-            let mut saved_values = vec![];
+            let mut saved_values = vec![receiver_value.clone()];
             for value in arg_values.iter().rev() {
                 saved_values.push(value.clone());
             }
-            saved_values.push(receiver_value.clone());
 
             let s = check_string(&arg_values[0], &arg_positions[0], saved_values, env)?;
             match &session.stdout_stderr_mode {
@@ -2819,11 +2816,10 @@ fn eval_built_in_call(
                 arg_values,
             )?;
 
-            let mut saved_values = vec![];
+            let mut saved_values = vec![receiver_value.clone()];
             for value in arg_values.iter().rev() {
                 saved_values.push(value.clone());
             }
-            saved_values.push(receiver_value.clone());
 
             let s = check_string(&arg_values[0], &arg_positions[0], saved_values, env)?;
             match &session.stdout_stderr_mode {
@@ -2906,11 +2902,10 @@ fn eval_built_in_call(
         }
         BuiltInFunctionKind::ShellRun => {
             if env.enforce_sandbox {
-                let mut saved_values = vec![];
+                let mut saved_values = vec![receiver_value.clone()];
                 for value in arg_values.iter().rev() {
                     saved_values.push(value.clone());
                 }
-                saved_values.push(receiver_value.clone());
 
                 return Err((
                     RestoreValues(saved_values),
@@ -2929,11 +2924,10 @@ fn eval_built_in_call(
                 arg_values,
             )?;
 
-            let mut saved_values = vec![];
+            let mut saved_values = vec![receiver_value.clone()];
             for value in arg_values.iter().rev() {
                 saved_values.push(value.clone());
             }
-            saved_values.push(receiver_value.clone());
 
             let s = check_string(&arg_values[0], &arg_positions[0], saved_values, env)?;
             match as_string_list(&arg_values[1]) {
@@ -2974,11 +2968,10 @@ fn eval_built_in_call(
                     }
                 }
                 Err(v) => {
-                    let mut saved_values = vec![];
+                    let mut saved_values = vec![receiver_value.clone()];
                     for value in arg_values.iter().rev() {
                         saved_values.push(value.clone());
                     }
-                    saved_values.push(receiver_value.clone());
 
                     let message = format_type_error(
                         &TypeName {
@@ -3086,11 +3079,10 @@ fn eval_built_in_call(
                 ..
             } = arg_values[0].as_ref()
             else {
-                let mut saved_values = vec![];
+                let mut saved_values = vec![receiver_value.clone()];
                 for value in arg_values.iter().rev() {
                     saved_values.push(value.clone());
                 }
-                saved_values.push(receiver_value.clone());
 
                 let message = format_type_error(
                     &TypeName {
@@ -3142,11 +3134,10 @@ fn eval_built_in_call(
                 arg_values,
             )?;
 
-            let mut saved_values = vec![];
+            let mut saved_values = vec![receiver_value.clone()];
             for value in arg_values.iter().rev() {
                 saved_values.push(value.clone());
             }
-            saved_values.push(receiver_value.clone());
 
             let type_name = check_string(&arg_values[0], &arg_positions[0], saved_values, env)?;
 
@@ -3173,11 +3164,10 @@ fn eval_built_in_call(
         }
         BuiltInFunctionKind::FsListDirectory => {
             if env.enforce_sandbox {
-                let mut saved_values = vec![];
+                let mut saved_values = vec![receiver_value.clone()];
                 for value in arg_values.iter().rev() {
                     saved_values.push(value.clone());
                 }
-                saved_values.push(receiver_value.clone());
 
                 return Err((
                     RestoreValues(saved_values),
@@ -3199,10 +3189,9 @@ fn eval_built_in_call(
             let path_s = match unwrap_path(&arg_values[0], env) {
                 Ok(s) => s,
                 Err(msg) => {
-                    let mut saved_values = vec![];
+                    let mut saved_values = vec![receiver_value.clone()];
                     for value in arg_values.iter().rev() {
                         saved_values.push(value.clone());
-                        saved_values.push(receiver_value.clone());
                     }
                     return Err((
                         RestoreValues(saved_values),
@@ -3306,11 +3295,10 @@ fn eval_built_in_call(
                 arg_values,
             )?;
 
-            let mut saved_values = vec![];
+            let mut saved_values = vec![receiver_value.clone()];
             for value in arg_values.iter().rev() {
                 saved_values.push(value.clone());
             }
-            saved_values.push(receiver_value.clone());
 
             let env_var_name = check_string(&arg_values[0], &arg_positions[0], saved_values, env)?;
 
@@ -3382,10 +3370,9 @@ fn eval_built_in_call(
             let path_s = match unwrap_path(&arg_values[0], env) {
                 Ok(s) => s,
                 Err(msg) => {
-                    let mut saved_values = vec![];
+                    let mut saved_values = vec![receiver_value.clone()];
                     for value in arg_values.iter().rev() {
                         saved_values.push(value.clone());
-                        saved_values.push(receiver_value.clone());
                     }
                     return Err((
                         RestoreValues(saved_values),
@@ -3426,11 +3413,10 @@ fn eval_built_in_call(
         }
         BuiltInFunctionKind::FsWriteFile => {
             if env.enforce_sandbox {
-                let mut saved_values = vec![];
+                let mut saved_values = vec![receiver_value.clone()];
                 for value in arg_values.iter().rev() {
                     saved_values.push(value.clone());
                 }
-                saved_values.push(receiver_value.clone());
 
                 return Err((
                     RestoreValues(saved_values),
@@ -3449,21 +3435,19 @@ fn eval_built_in_call(
                 arg_values,
             )?;
 
-            let mut saved_values = vec![];
+            let mut saved_values = vec![receiver_value.clone()];
             for value in arg_values.iter().rev() {
                 saved_values.push(value.clone());
             }
-            saved_values.push(receiver_value.clone());
 
             let content_s = check_string(&arg_values[0], &arg_positions[0], saved_values, env)?;
 
             let path_s = match unwrap_path(&arg_values[1], env) {
                 Ok(s) => s,
                 Err(msg) => {
-                    let mut saved_values = vec![];
+                    let mut saved_values = vec![receiver_value.clone()];
                     for value in arg_values.iter().rev() {
                         saved_values.push(value.clone());
-                        saved_values.push(receiver_value.clone());
                     }
                     return Err((
                         RestoreValues(saved_values),
@@ -3496,11 +3480,10 @@ fn eval_built_in_call(
         }
         BuiltInFunctionKind::FsWriteBytes => {
             if env.enforce_sandbox {
-                let mut saved_values = vec![];
+                let mut saved_values = vec![receiver_value.clone()];
                 for value in arg_values.iter().rev() {
                     saved_values.push(value.clone());
                 }
-                saved_values.push(receiver_value.clone());
 
                 return Err((
                     RestoreValues(saved_values),
@@ -3522,11 +3505,10 @@ fn eval_built_in_call(
             let items = match arg_values[0].as_ref() {
                 Value_::List { items, .. } => items.clone(),
                 _ => {
-                    let mut saved_values = vec![];
+                    let mut saved_values = vec![receiver_value.clone()];
                     for value in arg_values.iter().rev() {
                         saved_values.push(value.clone());
                     }
-                    saved_values.push(receiver_value.clone());
 
                     return Err((
                         RestoreValues(saved_values),
@@ -3549,11 +3531,10 @@ fn eval_built_in_call(
                 let i = match item.as_ref() {
                     Value_::Int(i) => *i,
                     _ => {
-                        let mut saved_values = vec![];
+                        let mut saved_values = vec![receiver_value.clone()];
                         for value in arg_values.iter().rev() {
                             saved_values.push(value.clone());
                         }
-                        saved_values.push(receiver_value.clone());
 
                         return Err((
                             RestoreValues(saved_values),
@@ -3570,11 +3551,10 @@ fn eval_built_in_call(
                 };
 
                 if !(0..=255).contains(&i) {
-                    let mut saved_values = vec![];
+                    let mut saved_values = vec![receiver_value.clone()];
                     for value in arg_values.iter().rev() {
                         saved_values.push(value.clone());
                     }
-                    saved_values.push(receiver_value.clone());
 
                     return Err((
                         RestoreValues(saved_values),
@@ -3592,19 +3572,17 @@ fn eval_built_in_call(
                 bytes.push(i as u8);
             }
 
-            let mut saved_values = vec![];
+            let mut saved_values = vec![receiver_value.clone()];
             for value in arg_values.iter().rev() {
                 saved_values.push(value.clone());
             }
-            saved_values.push(receiver_value.clone());
 
             let path_s = match unwrap_path(&arg_values[1], env) {
                 Ok(s) => s,
                 Err(msg) => {
-                    let mut saved_values = vec![];
+                    let mut saved_values = vec![receiver_value.clone()];
                     for value in arg_values.iter().rev() {
                         saved_values.push(value.clone());
-                        saved_values.push(receiver_value.clone());
                     }
                     return Err((
                         RestoreValues(saved_values),
@@ -3637,11 +3615,10 @@ fn eval_built_in_call(
         }
         BuiltInFunctionKind::FsCreateDir => {
             if env.enforce_sandbox {
-                let mut saved_values = vec![];
+                let mut saved_values = vec![receiver_value.clone()];
                 for value in arg_values.iter().rev() {
                     saved_values.push(value.clone());
                 }
-                saved_values.push(receiver_value.clone());
 
                 return Err((
                     RestoreValues(saved_values),
@@ -3663,10 +3640,9 @@ fn eval_built_in_call(
             let path_s = match unwrap_path(&arg_values[0], env) {
                 Ok(s) => s,
                 Err(message) => {
-                    let mut saved_values = vec![];
+                    let mut saved_values = vec![receiver_value.clone()];
                     for value in arg_values.iter().rev() {
                         saved_values.push(value.clone());
-                        saved_values.push(receiver_value.clone());
                     }
                     return Err((
                         RestoreValues(saved_values),
@@ -3698,11 +3674,10 @@ fn eval_built_in_call(
         }
         BuiltInFunctionKind::FsRemoveDir => {
             if env.enforce_sandbox {
-                let mut saved_values = vec![];
+                let mut saved_values = vec![receiver_value.clone()];
                 for value in arg_values.iter().rev() {
                     saved_values.push(value.clone());
                 }
-                saved_values.push(receiver_value.clone());
 
                 return Err((
                     RestoreValues(saved_values),
@@ -3724,10 +3699,9 @@ fn eval_built_in_call(
             let path_s = match unwrap_path(&arg_values[0], env) {
                 Ok(s) => s,
                 Err(message) => {
-                    let mut saved_values = vec![];
+                    let mut saved_values = vec![receiver_value.clone()];
                     for value in arg_values.iter().rev() {
                         saved_values.push(value.clone());
-                        saved_values.push(receiver_value.clone());
                     }
                     return Err((
                         RestoreValues(saved_values),
@@ -3759,11 +3733,10 @@ fn eval_built_in_call(
         }
         BuiltInFunctionKind::FsCopyFile => {
             if env.enforce_sandbox {
-                let mut saved_values = vec![];
+                let mut saved_values = vec![receiver_value.clone()];
                 for value in arg_values.iter().rev() {
                     saved_values.push(value.clone());
                 }
-                saved_values.push(receiver_value.clone());
 
                 return Err((
                     RestoreValues(saved_values),
@@ -3785,10 +3758,9 @@ fn eval_built_in_call(
             let src_path_s = match unwrap_path(&arg_values[0], env) {
                 Ok(s) => s,
                 Err(msg) => {
-                    let mut saved_values = vec![];
+                    let mut saved_values = vec![receiver_value.clone()];
                     for value in arg_values.iter().rev() {
                         saved_values.push(value.clone());
-                        saved_values.push(receiver_value.clone());
                     }
                     return Err((
                         RestoreValues(saved_values),
@@ -3803,10 +3775,9 @@ fn eval_built_in_call(
             let dest_path_s = match unwrap_path(&arg_values[1], env) {
                 Ok(s) => s,
                 Err(msg) => {
-                    let mut saved_values = vec![];
+                    let mut saved_values = vec![receiver_value.clone()];
                     for value in arg_values.iter().rev() {
                         saved_values.push(value.clone());
-                        saved_values.push(receiver_value.clone());
                     }
                     return Err((
                         RestoreValues(saved_values),
@@ -3844,11 +3815,10 @@ fn eval_built_in_call(
         }
         BuiltInFunctionKind::FsReadFile => {
             if env.enforce_sandbox {
-                let mut saved_values = vec![];
+                let mut saved_values = vec![receiver_value.clone()];
                 for value in arg_values.iter().rev() {
                     saved_values.push(value.clone());
                 }
-                saved_values.push(receiver_value.clone());
 
                 return Err((
                     RestoreValues(saved_values),
@@ -3870,10 +3840,9 @@ fn eval_built_in_call(
             let path_s = match unwrap_path(&arg_values[0], env) {
                 Ok(s) => s,
                 Err(msg) => {
-                    let mut saved_values = vec![];
+                    let mut saved_values = vec![receiver_value.clone()];
                     for value in arg_values.iter().rev() {
                         saved_values.push(value.clone());
-                        saved_values.push(receiver_value.clone());
                     }
                     return Err((
                         RestoreValues(saved_values),
@@ -3919,11 +3888,10 @@ fn eval_built_in_call(
         }
         BuiltInFunctionKind::FsReadFileBytes => {
             if env.enforce_sandbox {
-                let mut saved_values = vec![];
+                let mut saved_values = vec![receiver_value.clone()];
                 for value in arg_values.iter().rev() {
                     saved_values.push(value.clone());
                 }
-                saved_values.push(receiver_value.clone());
 
                 return Err((
                     RestoreValues(saved_values),
@@ -3945,10 +3913,9 @@ fn eval_built_in_call(
             let path_s = match unwrap_path(&arg_values[0], env) {
                 Ok(s) => s,
                 Err(msg) => {
-                    let mut saved_values = vec![];
+                    let mut saved_values = vec![receiver_value.clone()];
                     for value in arg_values.iter().rev() {
                         saved_values.push(value.clone());
-                        saved_values.push(receiver_value.clone());
                     }
                     return Err((
                         RestoreValues(saved_values),
@@ -4003,11 +3970,10 @@ fn eval_built_in_call(
         }
         BuiltInFunctionKind::FsRemoveFile => {
             if env.enforce_sandbox {
-                let mut saved_values = vec![];
+                let mut saved_values = vec![receiver_value.clone()];
                 for value in arg_values.iter().rev() {
                     saved_values.push(value.clone());
                 }
-                saved_values.push(receiver_value.clone());
 
                 return Err((
                     RestoreValues(saved_values),
@@ -4029,10 +3995,9 @@ fn eval_built_in_call(
             let path_s = match unwrap_path(&arg_values[0], env) {
                 Ok(s) => s,
                 Err(msg) => {
-                    let mut saved_values = vec![];
+                    let mut saved_values = vec![receiver_value.clone()];
                     for value in arg_values.iter().rev() {
                         saved_values.push(value.clone());
-                        saved_values.push(receiver_value.clone());
                     }
                     return Err((
                         RestoreValues(saved_values),
@@ -4301,11 +4266,10 @@ fn eval_built_in_call(
             )?;
 
             let Value_::Namespace { ns_info, .. } = arg_values[0].as_ref() else {
-                let mut saved_values = vec![];
+                let mut saved_values = vec![receiver_value.clone()];
                 for value in arg_values.iter().rev() {
                     saved_values.push(value.clone());
                 }
-                saved_values.push(receiver_value.clone());
 
                 let message = format_type_error(
                     &TypeName {
@@ -4805,11 +4769,10 @@ fn eval_call(
             }
         }
         _ => {
-            let mut saved_values = vec![];
+            let mut saved_values = vec![receiver_value.clone()];
             for value in arg_values.iter().rev() {
                 saved_values.push(value.clone());
             }
-            saved_values.push(receiver_value.clone());
 
             let message = format_type_error(
                 &TypeName {
@@ -5251,11 +5214,10 @@ fn eval_built_in_method_call(
                 arg_values,
             )?;
 
-            let mut saved_values = vec![];
+            let mut saved_values = vec![receiver_value.clone()];
             for value in arg_values.iter().rev() {
                 saved_values.push(value.clone());
             }
-            saved_values.push(receiver_value.clone());
 
             let expected_key =
                 check_string(&arg_values[0], &arg_positions[0], saved_values.clone(), env)?;
@@ -5329,11 +5291,10 @@ fn eval_built_in_method_call(
                     }
                 }
                 _ => {
-                    let mut saved_values = vec![];
+                    let mut saved_values = vec![receiver_value.clone()];
                     for value in arg_values.iter().rev() {
                         saved_values.push(value.clone());
                     }
-                    saved_values.push(receiver_value.clone());
 
                     return Err((
                         RestoreValues(saved_values),
@@ -5363,11 +5324,10 @@ fn eval_built_in_method_call(
                 arg_values,
             )?;
 
-            let mut saved_values = vec![];
+            let mut saved_values = vec![receiver_value.clone()];
             for value in arg_values.iter().rev() {
                 saved_values.push(value.clone());
             }
-            saved_values.push(receiver_value.clone());
 
             let key_to_remove =
                 check_string(&arg_values[0], &arg_positions[0], saved_values.clone(), env)?;
@@ -5412,11 +5372,10 @@ fn eval_built_in_method_call(
                 arg_values,
             )?;
 
-            let mut saved_values = vec![];
+            let mut saved_values = vec![receiver_value.clone()];
             for value in arg_values.iter().rev() {
                 saved_values.push(value.clone());
             }
-            saved_values.push(receiver_value.clone());
 
             let key_to_insert =
                 check_string(&arg_values[0], &arg_positions[0], saved_values.clone(), env)?;
@@ -5470,11 +5429,10 @@ fn eval_built_in_method_call(
                     }
                 }
                 _ => {
-                    let mut saved_values = vec![];
+                    let mut saved_values = vec![receiver_value.clone()];
                     for value in arg_values.iter().rev() {
                         saved_values.push(value.clone());
                     }
-                    saved_values.push(receiver_value.clone());
 
                     return Err((
                         RestoreValues(saved_values),
@@ -5511,11 +5469,10 @@ fn eval_built_in_method_call(
                     }
                 }
                 _ => {
-                    let mut saved_values = vec![];
+                    let mut saved_values = vec![receiver_value.clone()];
                     for value in arg_values.iter().rev() {
                         saved_values.push(value.clone());
                     }
-                    saved_values.push(receiver_value.clone());
 
                     return Err((
                         RestoreValues(saved_values),
@@ -5552,11 +5509,10 @@ fn eval_built_in_method_call(
                     }
                 }
                 _ => {
-                    let mut saved_values = vec![];
+                    let mut saved_values = vec![receiver_value.clone()];
                     for value in arg_values.iter().rev() {
                         saved_values.push(value.clone());
                     }
-                    saved_values.push(receiver_value.clone());
 
                     return Err((
                         RestoreValues(saved_values),
@@ -5600,11 +5556,10 @@ fn eval_built_in_method_call(
                     }
                 }
                 _ => {
-                    let mut saved_values = vec![];
+                    let mut saved_values = vec![receiver_value.clone()];
                     for value in arg_values.iter().rev() {
                         saved_values.push(value.clone());
                     }
-                    saved_values.push(receiver_value.clone());
 
                     return Err((
                         RestoreValues(saved_values),
@@ -5650,11 +5605,10 @@ fn eval_built_in_method_call(
                     }
                 }
                 _ => {
-                    let mut saved_values = vec![];
+                    let mut saved_values = vec![receiver_value.clone()];
                     for value in arg_values.iter().rev() {
                         saved_values.push(value.clone());
                     }
-                    saved_values.push(receiver_value.clone());
 
                     return Err((
                         RestoreValues(saved_values),
@@ -5697,11 +5651,10 @@ fn eval_built_in_method_call(
                     }
                 }
                 (_, Value_::Int(_)) => {
-                    let mut saved_values = vec![];
+                    let mut saved_values = vec![receiver_value.clone()];
                     for value in arg_values.iter().rev() {
                         saved_values.push(value.clone());
                     }
-                    saved_values.push(receiver_value.clone());
 
                     return Err((
                         RestoreValues(saved_values),
@@ -5718,11 +5671,10 @@ fn eval_built_in_method_call(
                     ));
                 }
                 (_, _) => {
-                    let mut saved_values = vec![];
+                    let mut saved_values = vec![receiver_value.clone()];
                     for value in arg_values.iter().rev() {
                         saved_values.push(value.clone());
                     }
-                    saved_values.push(receiver_value.clone());
 
                     return Err((
                         RestoreValues(saved_values),
@@ -5757,11 +5709,10 @@ fn eval_built_in_method_call(
                     }
                 }
                 _ => {
-                    let mut saved_values = vec![];
+                    let mut saved_values = vec![receiver_value.clone()];
                     for value in arg_values.iter().rev() {
                         saved_values.push(value.clone());
                     }
-                    saved_values.push(receiver_value.clone());
 
                     return Err((
                         RestoreValues(saved_values),
@@ -5794,11 +5745,10 @@ fn eval_built_in_method_call(
             let (items, elem_type) = match receiver_value.as_ref() {
                 Value_::List { items, elem_type } => (items, elem_type),
                 _ => {
-                    let mut saved_values = vec![];
+                    let mut saved_values = vec![receiver_value.clone()];
                     for value in arg_values.iter().rev() {
                         saved_values.push(value.clone());
                     }
-                    saved_values.push(receiver_value.clone());
 
                     return Err((
                         RestoreValues(saved_values),
@@ -5819,11 +5769,10 @@ fn eval_built_in_method_call(
             let i_arg = match arg_values[0].as_ref() {
                 Value_::Int(i) => *i,
                 _ => {
-                    let mut saved_values = vec![];
+                    let mut saved_values = vec![receiver_value.clone()];
                     for value in arg_values.iter().rev() {
                         saved_values.push(value.clone());
                     }
-                    saved_values.push(receiver_value.clone());
 
                     return Err((
                         RestoreValues(saved_values),
@@ -5841,11 +5790,10 @@ fn eval_built_in_method_call(
             let j_arg = match arg_values[1].as_ref() {
                 Value_::Int(j) => *j,
                 _ => {
-                    let mut saved_values = vec![];
+                    let mut saved_values = vec![receiver_value.clone()];
                     for value in arg_values.iter().rev() {
                         saved_values.push(value.clone());
                     }
-                    saved_values.push(receiver_value.clone());
 
                     return Err((
                         RestoreValues(saved_values),
@@ -5883,11 +5831,10 @@ fn eval_built_in_method_call(
         }
         BuiltInMethodKind::PathExists => {
             if env.enforce_sandbox {
-                let mut saved_values = vec![];
+                let mut saved_values = vec![receiver_value.clone()];
                 for value in arg_values.iter().rev() {
                     saved_values.push(value.clone());
                 }
-                saved_values.push(receiver_value.clone());
 
                 return Err((
                     RestoreValues(saved_values),
@@ -5909,10 +5856,9 @@ fn eval_built_in_method_call(
             let path_s = match unwrap_path(receiver_value, env) {
                 Ok(s) => s,
                 Err(msg) => {
-                    let mut saved_values = vec![];
+                    let mut saved_values = vec![receiver_value.clone()];
                     for value in arg_values.iter().rev() {
                         saved_values.push(value.clone());
-                        saved_values.push(receiver_value.clone());
                     }
                     return Err((
                         RestoreValues(saved_values),
@@ -5936,11 +5882,10 @@ fn eval_built_in_method_call(
         }
         BuiltInMethodKind::PathInfo => {
             if env.enforce_sandbox {
-                let mut saved_values = vec![];
+                let mut saved_values = vec![receiver_value.clone()];
                 for value in arg_values.iter().rev() {
                     saved_values.push(value.clone());
                 }
-                saved_values.push(receiver_value.clone());
 
                 return Err((
                     RestoreValues(saved_values),
@@ -5962,10 +5907,9 @@ fn eval_built_in_method_call(
             let path_s = match unwrap_path(receiver_value, env) {
                 Ok(s) => s,
                 Err(msg) => {
-                    let mut saved_values = vec![];
+                    let mut saved_values = vec![receiver_value.clone()];
                     for value in arg_values.iter().rev() {
                         saved_values.push(value.clone());
-                        saved_values.push(receiver_value.clone());
                     }
                     return Err((
                         RestoreValues(saved_values),
@@ -6054,11 +5998,10 @@ fn eval_built_in_method_call(
                 arg_values,
             )?;
 
-            let mut saved_values = vec![];
+            let mut saved_values = vec![receiver_value.clone()];
             for value in arg_values.iter().rev() {
                 saved_values.push(value.clone());
             }
-            saved_values.push(receiver_value.clone());
 
             let s = check_string(receiver_value, receiver_pos, saved_values, env)?;
             let value = match s.parse::<i64>() {
@@ -6082,11 +6025,10 @@ fn eval_built_in_method_call(
                 arg_values,
             )?;
 
-            let mut saved_values = vec![];
+            let mut saved_values = vec![receiver_value.clone()];
             for value in arg_values.iter().rev() {
                 saved_values.push(value.clone());
             }
-            saved_values.push(receiver_value.clone());
 
             let s = check_string(receiver_value, receiver_pos, saved_values, env)?;
             let mut items = rpds::Vector::new();
@@ -6114,11 +6056,10 @@ fn eval_built_in_method_call(
                 arg_values,
             )?;
 
-            let mut saved_values = vec![];
+            let mut saved_values = vec![receiver_value.clone()];
             for value in arg_values.iter().rev() {
                 saved_values.push(value.clone());
             }
-            saved_values.push(receiver_value.clone());
 
             let receiver_s = check_string(receiver_value, receiver_pos, saved_values.clone(), env)?;
             let arg_s = check_string(&arg_values[0], &arg_positions[0], saved_values, env)?;
@@ -6149,11 +6090,10 @@ fn eval_built_in_method_call(
                 arg_values,
             )?;
 
-            let mut saved_values = vec![];
+            let mut saved_values = vec![receiver_value.clone()];
             for value in arg_values.iter().rev() {
                 saved_values.push(value.clone());
             }
-            saved_values.push(receiver_value.clone());
 
             let receiver_s = check_string(receiver_value, receiver_pos, saved_values.clone(), env)?;
             let arg_s = check_string(&arg_values[0], &arg_positions[0], saved_values, env)?;
@@ -6175,11 +6115,10 @@ fn eval_built_in_method_call(
                 arg_values,
             )?;
 
-            let mut saved_values = vec![];
+            let mut saved_values = vec![receiver_value.clone()];
             for value in arg_values.iter().rev() {
                 saved_values.push(value.clone());
             }
-            saved_values.push(receiver_value.clone());
 
             let receiver_s = check_string(receiver_value, receiver_pos, saved_values.clone(), env)?;
             let arg_s = check_string(&arg_values[0], &arg_positions[0], saved_values, env)?;
@@ -6201,11 +6140,10 @@ fn eval_built_in_method_call(
                 arg_values,
             )?;
 
-            let mut saved_values = vec![];
+            let mut saved_values = vec![receiver_value.clone()];
             for value in arg_values.iter().rev() {
                 saved_values.push(value.clone());
             }
-            saved_values.push(receiver_value.clone());
 
             let receiver_s = check_string(receiver_value, receiver_pos, saved_values.clone(), env)?;
 
@@ -6262,11 +6200,10 @@ fn eval_built_in_method_call(
                 arg_values,
             )?;
 
-            let mut saved_values = vec![];
+            let mut saved_values = vec![receiver_value.clone()];
             for value in arg_values.iter().rev() {
                 saved_values.push(value.clone());
             }
-            saved_values.push(receiver_value.clone());
 
             let s = check_string(receiver_value, receiver_pos, saved_values, env)?;
             if expr_value_is_used {
@@ -6285,11 +6222,10 @@ fn eval_built_in_method_call(
                 arg_values,
             )?;
 
-            let mut saved_values = vec![];
+            let mut saved_values = vec![receiver_value.clone()];
             for value in arg_values.iter().rev() {
                 saved_values.push(value.clone());
             }
-            saved_values.push(receiver_value.clone());
 
             let s = check_string(receiver_value, receiver_pos, saved_values, env)?;
             let lines = s
@@ -6323,21 +6259,19 @@ fn eval_built_in_method_call(
                 arg_values,
             )?;
 
-            let mut saved_values = vec![];
+            let mut saved_values = vec![receiver_value.clone()];
             for value in arg_values.iter().rev() {
                 saved_values.push(value.clone());
             }
-            saved_values.push(receiver_value.clone());
 
             let s_arg = check_string(receiver_value, receiver_pos, saved_values.clone(), env)?;
             let from_arg = match arg_values[0].as_ref() {
                 Value_::Int(i) => i,
                 _ => {
-                    let mut saved_values = vec![];
+                    let mut saved_values = vec![receiver_value.clone()];
                     for value in arg_values.iter().rev() {
                         saved_values.push(value.clone());
                     }
-                    saved_values.push(receiver_value.clone());
 
                     return Err((
                         RestoreValues(saved_values),
@@ -6355,11 +6289,10 @@ fn eval_built_in_method_call(
             let to_arg = match arg_values[1].as_ref() {
                 Value_::Int(i) => i,
                 _ => {
-                    let mut saved_values = vec![];
+                    let mut saved_values = vec![receiver_value.clone()];
                     for value in arg_values.iter().rev() {
                         saved_values.push(value.clone());
                     }
-                    saved_values.push(receiver_value.clone());
 
                     return Err((
                         RestoreValues(saved_values),
@@ -6376,11 +6309,10 @@ fn eval_built_in_method_call(
             };
 
             if *from_arg < 0 {
-                let mut saved_values = vec![];
+                let mut saved_values = vec![receiver_value.clone()];
                 for value in arg_values.iter().rev() {
                     saved_values.push(value.clone());
                 }
-                saved_values.push(receiver_value.clone());
 
                 return Err((
                     RestoreValues(saved_values),
@@ -6396,11 +6328,10 @@ fn eval_built_in_method_call(
             }
 
             if from_arg > to_arg {
-                let mut saved_values = vec![];
+                let mut saved_values = vec![receiver_value.clone()];
                 for value in arg_values.iter().rev() {
                     saved_values.push(value.clone());
                 }
-                saved_values.push(receiver_value.clone());
 
                 let s_len = s_arg.chars().count();
                 return Err((
